@@ -37,6 +37,8 @@ void Runner::viol(const char *prop, const std::string &cls, const std::string &s
   if (tpos.size() > 1 && strcmp(prop, "C20") != 0)
     for (const char *c : xt)
       if (cls == c) { viol("C20", "cross-talk-" + cls, sigrest, detail, op); break; }
+  // the stop sequence reproc_destroy runs is a stop request like any other: what the C15 model finds there is reported for C07 too
+  if (!strcmp(prop, "C15") && cls.compare(0, 5, "stop-") == 0) viol("C07", cls, sigrest.empty() ? "via=destroy" : sigrest + "/via=destroy", detail, op);
   Viol v;
   v.prop = prop;
   v.cls = cls;
@@ -322,6 +324,8 @@ void Runner::on_park(Thread *t, Kind k) {
   } else if ((op.kind == OP_READ || op.kind == OP_WRITE) && h && h->nonblocking) {
     viol("C17", "nonblocking-call-blocked", fmt("op=%s/in=%s", op_name[op.kind], kind_name[k]),
          fmt("nonblocking %s parked inside %s", op_name[op.kind], kind_name[k]), t->op);
+  } else if ((op.kind == OP_DRAIN || op.kind == OP_RUN) && (k == K_read || k == K_write) && tpos.size() == 1) {
+    viol("C16", "drain-blocked-in-read", "", "drain/run parked inside read(): it only reads streams poll reported ready, so it can wait only in poll (where the deadline applies)", t->op);
   } else if (op.kind == OP_READ && k != K_read) {
     viol("C17", "read-waits-for-something-else", fmt("in=%s", kind_name[k]), fmt("blocking read parked inside %s", kind_name[k]), t->op);
   } else if (op.kind == OP_WRITE && k != K_write) {
